@@ -441,6 +441,8 @@ class ActivateBranch(SwitchKernel):
         ctx.oblige("ensures.active-key-and-spec-recorded", z3.And(k.has, k.kid == self.key, z3.Not(self.opt(ctx, "active_spec").null),
                                                                  self.opt(ctx, "active_spec").target.sid == self.sid), kind="post-normal")
         ctx.oblige("ensures.SWInv[C12 exactly one started graph, the active one]", self.cur_inv(ctx), kind="post-normal")
+        ctx.oblige("ensures.switch-owned-output-cleared-when-a-branch-is-retired[C12 the previous branch no longer influences the output]",
+                   z3.Implies(z3.And(z3.Not(self.fwd), self.act_has), self.gg(ctx, "resets") == 1), kind="post-normal")
 
     def post_exc(self, I, exc):
         ctx = I.ctx
